@@ -324,6 +324,22 @@ Proof.
 Qed.
 Print Assumptions C16_levels_ok_sound.
 
+(* the level list a comparison creator emits, accepted against the DOCUMENTED level list (built by the translator from the
+   constructor arguments and the documented defaults, incl. every invalid_*_as_null / datetime_format / lat-long option
+   combination): same length, same null flags, and level by level the same value on every record pair *)
+Theorem C16_levels_match_sound :
+  forall ls ex, levels_match ls ex = true ->
+    length ls = length ex /\
+    forall i l n c, nth_error ls i = Some l -> nth_error ex i = Some (n, c) ->
+      l_null l = n /\
+      match l_cond l, c with
+      | Some a, Some b => forall P fenv env, eval P fenv env a = eval P fenv env b
+      | None, None => True
+      | _, _ => False
+      end.
+Proof. exact levels_match_sound. Qed.
+Print Assumptions C16_levels_match_sound.
+
 (* ---- non-vacuity ---- *)
 Local Open Scope string_scope.
 Definition ex_col (s : bool) := ECol s "name".
